@@ -14,16 +14,21 @@ import (
 // C06/C12/C13 run in a child built with -race; a report naming a repository frame is a violation.
 
 type c18Case struct {
-	Kind       string   `json:"kind"` // c06 | c12 | c13 | resend | join_send (c06 conversations while the join callback dispatches commands to the new key)
-	JoinHoldUs int      `json:"join_callback_hold_us,omitempty"`
-	Greet      int      `json:"commands_from_join_callback,omitempty"`
-	C06        *c06Case `json:"c06,omitempty"`
-	C12        *c12Case `json:"c12,omitempty"`
-	C13        *c13Case `json:"c13,omitempty"`
+	Kind       string     `json:"kind"` // c06 | c12 | c13 | resend | join_send (c06 conversations while the join callback dispatches commands to the new key)
+	JoinHoldUs int        `json:"join_callback_hold_us,omitempty"`
+	Greet      int        `json:"commands_from_join_callback,omitempty"`
+	C06        *c06Case   `json:"c06,omitempty"`
+	C12        *c12Case   `json:"c12,omitempty"`
+	Stall      *stallCase `json:"stall,omitempty"`
+	C13        *c13Case   `json:"c13,omitempty"`
 }
 
 func genC18(t *rapid.T) c18Case {
-	switch rapid.SampledFrom([]string{"c06", "c12", "c13", "c13", "resend", "join_send"}).Draw(t, "kind") {
+	switch rapid.SampledFrom([]string{"c06", "c12", "c13", "c13", "resend", "join_send", "stall"}).Draw(t, "kind") {
+	case "stall":
+		c := genStall(t, false)
+		c.BigBytes = 6 << 20
+		return c18Case{Kind: "stall", Stall: &c}
 	case "join_send":
 		c := genC06(t)
 		return c18Case{Kind: "join_send", C06: &c, Greet: rapid.IntRange(0, 2).Draw(t, "greet"), JoinHoldUs: rapid.SampledFrom([]int{0, 500, 4000}).Draw(t, "join_hold")}
@@ -86,6 +91,9 @@ func checkC18(c c18Case, _ *kit.Collector) kit.Result {
 		}
 	case "c12":
 		sc = c12Scenario(*c.C12)
+		res.NT = true
+	case "stall":
+		sc = stallScenario(*c.Stall)
 		res.NT = true
 	case "resend":
 		sc = c12Scenario(*c.C12)
